@@ -683,3 +683,70 @@ func (c *FuncCFG) succeededInLoopBefore(call *ast.CallExpr, loop *ast.RangeStmt,
 	}
 	return nil, ""
 }
+
+// boolStateSearch explores the graph from starts carrying one boolean fact. node may
+// update the fact at a node (or end the path: stop), edgeFact may update it across a
+// condition edge; bad reports a node reached in a state that violates the rule. It
+// returns the path to the first such node (nil when there is none).
+func (c *FuncCFG) boolStateSearch(starts []Point, init bool,
+	node func(n ast.Node, fact bool) (newFact bool, stop bool),
+	edgeFact func(cond ast.Expr, val bool, fact bool) bool,
+	bad func(n ast.Node, fact bool) bool) []string {
+	type st struct {
+		pt   Point
+		fact bool
+	}
+	seen := map[st]bool{}
+	parent := map[st]st{}
+	var work []st
+	push := func(from, to st, root bool) {
+		if !seen[to] {
+			seen[to] = true
+			if !root {
+				parent[to] = from
+			}
+			work = append(work, to)
+		}
+	}
+	for _, s := range starts {
+		push(st{}, st{s, init}, true)
+	}
+	for len(work) > 0 {
+		cur := work[len(work)-1]
+		work = work[:len(work)-1]
+		b, idx, fact := cur.pt.B, cur.pt.I, cur.fact
+		if idx >= 0 && idx < len(b.Nodes) {
+			n := b.Nodes[idx]
+			if bad(n, fact) {
+				var out []string
+				for x, ok := cur, true; ok && len(out) < 30; x, ok = parent[x] {
+					if x.pt.I >= 0 && x.pt.I < len(x.pt.B.Nodes) {
+						out = append([]string{c.P.Position(x.pt.B.Nodes[x.pt.I].Pos())}, out...)
+					}
+				}
+				if len(out) == 0 {
+					out = []string{c.P.Position(n.Pos())}
+				}
+				return out
+			}
+			var stop bool
+			fact, stop = node(n, fact)
+			if stop {
+				continue
+			}
+		}
+		if idx+1 < len(b.Nodes) {
+			push(cur, st{Point{b, idx + 1}, fact}, false)
+			continue
+		}
+		cond := Cond(b)
+		for si, succ := range b.Succs {
+			f2 := fact
+			if cond != nil && edgeFact != nil {
+				f2 = edgeFact(cond, si == 0, fact)
+			}
+			push(cur, st{Point{succ, -1}, f2}, false)
+		}
+	}
+	return nil
+}
